@@ -75,6 +75,7 @@ RULES = {
     "remove_child": fd(t=I, su=B),
     "reversible_remove_child": fd(t=I, su=B, undo=B),
     "set_child_nodes": fd(t=I, seed=st.integers(0, 2 ** 31)),
+    "reassign_parent": fd(t=I, c=I, q=I, how=st.sampled_from(["same_after_drop", "same_after_drop", "other", "tail_node"])),
     "set_rooted": fd(v=st.sampled_from([True, False, None])),
 }
 
@@ -387,6 +388,31 @@ class Interp(object):
             kids = [rt.obj[c] for c in rt.children[i]]
             random.Random(a["seed"]).shuffle(kids)
             ctx.call(key, rt.obj[i].set_child_nodes, kids)
+        elif op == "reassign_parent":
+            # the parent of a node is (re)assigned through the public property: the node must end up exactly once among
+            # the children of the parent it names - also when that parent had dropped it before (set_child_nodes
+            # without it) and is named again
+            cand = [i for i in internals if len(rt.children[i]) >= 2]
+            if not cand:
+                return
+            pi = cand[a["t"] % len(cand)]
+            ci = rt.children[pi][a["c"] % len(rt.children[pi])]
+            P, C = rt.obj[pi], rt.obj[ci]
+            how = a["how"]
+            if how == "same_after_drop":
+                ctx.call(key, P.set_child_nodes, [rt.obj[k] for k in rt.children[pi] if k != ci])
+                ctx.call(key, setattr, C, "parent_node", P)
+            else:
+                below = set(rt.preorder(ci))
+                others = [i for i in internals if i not in below and i != pi]
+                if not others:
+                    return
+                Q = rt.obj[others[a["q"] % len(others)]]
+                if how == "other":
+                    ctx.call(key, setattr, C, "parent_node", Q)
+                else:
+                    ctx.call(key, setattr, C.edge, "tail_node", Q)
+            ctx.cls("reassign_parent:" + how)
         elif op == "set_rooted":
             tree.is_rooted = a["v"]
         else:
@@ -491,6 +517,8 @@ def arg_grid(op, nn):
     elif op == "add_child":
         out = [{"t": t, "how": h, "pos": 0} for t in T for h in ("add_child", "new_child", "insert_child", "insert_new_child")] + [
             {"t": t, "how": h, "pos": p} for t in T for h in ("reinsert_existing", "add_existing") for p in range(0, 36)]
+    elif op == "reassign_parent":
+        out = [{"t": t, "c": c, "q": q, "how": h} for t in T for c in (0, 1) for q in (0, 1) for h in ("same_after_drop", "other", "tail_node")]
     elif op == "set_child_nodes":
         out = [{"t": t, "seed": 1} for t in T]
     elif op == "set_rooted":
